@@ -173,6 +173,9 @@ pub async fn serve
                     .body(format!("{}", target_tickets.download_string()).into_bytes())
             });
 
+    #[cfg(ruler_verif)]
+    if crate::verif::server_in_memory() { crate::verif::drive_server(files_endpoint.or(rules_endpoint)).await; return Ok(()); }
+
     let address = SocketAddr::new(IpAddr::V4(Ipv4Addr::new(127, 0, 0, 1)), port);
     println!("Serving on {}", address);
 
